@@ -83,6 +83,11 @@ struct TypeSet {
 // and build recursive data structures, so unlimited nesting would exhaust the stack.
 pub(crate) const MAX_NESTING_DEPTH: usize = 256;
 
+// The maximum number of elements (members, array dimensions, tagged items) of one member of an A2ML type.
+// References to named types are resolved by copying the referenced type, so a short text can
+// describe a type whose size grows exponentially with the length of the text.
+const MAX_TYPE_SIZE: usize = 0x4_0000;
+
 type A2mlTokenIter<'a> = std::iter::Peekable<std::slice::Iter<'a, TokenType>>;
 
 // parser output types (generic IF_DATA)
@@ -860,7 +865,37 @@ fn parse_aml_member(tok_iter: &mut A2mlTokenIter, types: &TypeSet) -> Result<A2m
         base_type = A2mlTypeSpec::Array(Box::new(base_type), dim as usize);
     }
 
+    // the member can contain copies of named types, so its nesting depth and size are not limited by
+    // the nesting of the text that has been parsed to build it
+    let mut size = 0;
+    check_type_limits(&base_type, types.depth.get(), &mut size)?;
+
     Ok(base_type)
+}
+
+// check_type_limits()
+// verify that a type, including all referenced types that were copied into it, is not nested more deeply than
+// MAX_NESTING_DEPTH and does not have more than MAX_TYPE_SIZE elements. depth is the depth of the type itself.
+fn check_type_limits(spec: &A2mlTypeSpec, depth: usize, size: &mut usize) -> Result<(), String> {
+    *size += 1;
+    if depth > MAX_NESTING_DEPTH {
+        return Err(String::from("A2ML Error: types are nested too deeply"));
+    }
+    if *size > MAX_TYPE_SIZE {
+        return Err(String::from("A2ML Error: type is too large"));
+    }
+    match spec {
+        A2mlTypeSpec::Array(inner, _) | A2mlTypeSpec::Sequence(inner) => {
+            check_type_limits(inner, depth + 1, size)
+        }
+        A2mlTypeSpec::Struct(members) => members
+            .iter()
+            .try_for_each(|member| check_type_limits(member, depth + 1, size)),
+        A2mlTypeSpec::TaggedStruct(tagged_items) | A2mlTypeSpec::TaggedUnion(tagged_items) => tagged_items
+            .values()
+            .try_for_each(|tagged| check_type_limits(&tagged.item, depth + 1, size)),
+        _ => Ok(()),
+    }
 }
 
 // parse_optional_name()
